@@ -124,6 +124,16 @@ pub fn lower(node: cst::File) -> LowerResult {
         .items()
         .flat_map(|item| lower_item(&mut ctx, item))
         .collect();
+    // The parser accepts an expression between the items of a file; the language has no
+    // place for one, so say so instead of dropping it.
+    for child in node.syntax().children() {
+        if cst::Expr::can_cast(child.kind()) {
+            ctx.push_error(
+                Some(child.text_range()),
+                "expected an item (fn, struct, enum, trait, impl or extern declaration), found an expression",
+            );
+        }
+    }
     let ast = if ctx.has_errors() {
         None
     } else {
